@@ -5,7 +5,9 @@ the frame-by-frame Unwind that models try/finally.  TLC (MC_Proto): action prope
 the end-to-end invariants over the corpus x both entry modes x bounded values / corrupted bytes x an injected failure at
 each of the first primitive writer/reader calls.  Binding: R - every behaviour runs on the generated code with a
 writer/reader that fails at the same call; every generated serialize/deserialize (nested structs, array elements, case
-data) is wrapped by the harness to record the mode at entry and exit; judged on the observation alone."""
+data) is wrapped by the harness to record the mode at entry and exit; each nested class is also entered DIRECTLY (it is a public
+class with its own serialize/deserialize) with either mode, on its own bytes, a truncation and an extension of them; judged on
+the observation alone."""
 from __future__ import annotations
 
 import json
@@ -66,7 +68,7 @@ def run(tier, corrupt=False):
                 for oi, obj in enumerate(objs):
                     for san0 in (False, True):
                         for fuel in [-1] + list(range(nf)):
-                            cases.append({"kind": "ser", "prog": prog, "san0": san0, "fuel": fuel, "obj": obj, "salt": oi})
+                            cases.append({"kind": "ser", "prog": prog, "san0": san0, "fuel": fuel, "obj": obj, "salt": oi, "direct_nested": fuel == -1})
                             meta.append(("ser", prog, san0, fuel, obj, model_modes.get((prog, san0, json.dumps(obj, sort_keys=True))) if fuel == -1 else None))
             for r in des:
                 if r["prog"] in acc:
